@@ -251,6 +251,11 @@ func sbRoots() []sbRoot {
 	sbAddRoot("mate-in-1", "6k1/5ppp/8/8/8/8/8/R5K1 w - - 0 1")
 	sbAddRoot("mated-in-1", "6k1/8/8/8/8/1r6/r7/6K1 w - - 0 1")
 	sbAddRoot("queens", "qqqqkqqq/8/8/8/8/8/8/QQQQKQQQ w - - 0 1")
+	// evaluation beyond +-Inf (nine queens against a bare king + pawn): before /repo 73ba4a5 quiescence
+	// stood pat on a value the parent took for a mate score and `go depth 1` answered bestmove 0000
+	sbAddRoot("eval-beyond-inf", "4k3/p7/8/8/8/8/QQ6/QQQQKQQQ b - - 0 1")
+	sbAddRoot("eval-beyond-inf-w", "qqqqkqqq/qq6/8/8/8/8/P7/4K3 w - - 0 1")
+	sbAddRoot("eval-beyond-inf-mover", "4k3/p7/8/8/8/8/QQ6/QQQQKQQQ w - - 0 1")
 	sbAddRoot("middlegame", "r1bq1rk1/pp2b1pp/n1pp1n2/3P1p2/2P1p3/2N1P2N/PP2BPPP/R1BQ1RK1 b - - 2 10")
 	sbAddRoot("endgame", "8/p2B4/PkP5/4p1pK/4Pb1p/5P2/8/8 w - - 29 68")
 	return sbFixedRoots
